@@ -51,7 +51,6 @@ def _lib_builders():
     b['SignedSub'] = lambda hw, w: A.SignedSub(hw, 'dut', W(hw, 'a', w), W(hw, 'b', w), W(hw, 'r', w + 1))
     b['BinaryToBCD'] = lambda hw, w: A.BinaryToBCD(hw, 'dut', W(hw, 'a', w), W(hw, 'r', 4 * ((w + 2) // 3)))
     b['CountLeadingZeros'] = lambda hw, w: A.CountLeadingZeros(hw, 'dut', W(hw, 'a', w), W(hw, 'r', max(1, (w - 1).bit_length())), W(hw, 'z'))
-    b['PriorityEncoder'] = lambda hw, w: B.PriorityEncoder(hw, 'dut', W(hw, 'a', w), W(hw, 'r', max(1, (w - 1).bit_length())))
     b['FPAdder_SP'] = lambda hw: __import__('py4hw.logic.arithmetic_fp', fromlist=['x']).FPAdder_SP(hw, 'dut', W(hw, 'a', 32), W(hw, 'b', 32), W(hw, 'r', 32))
     b['FPMult_SP'] = lambda hw: __import__('py4hw.logic.arithmetic_fp', fromlist=['x']).FPMult_SP(hw, 'dut', W(hw, 'a', 32), W(hw, 'b', 32), W(hw, 'r', 32))
     b['FPComparator_SP'] = lambda hw: R.FPComparator_SP(hw, 'dut', W(hw, 'a', 32), W(hw, 'b', 32), W(hw, 'gt'), W(hw, 'eq'), W(hw, 'lt'))
@@ -79,7 +78,7 @@ LIB_THOROUGH = LIB_QUICK + [
     ('PipelinePhase', (w, n)) for w in (1, 8) for n in (1, 2, 6)] + [('Select', (w, n)) for w in (1, 8) for n in (2, 4, 6)] + [
     ('OneHotMux', (4, 3)), ('AndBits', (4,)), ('OrBits', (6,)), ('Sign', (1,)), ('StepUpCounter', (3,)), ('Decoder', (1,)), ('Decoder', (3,)),
     ('ShiftRight', (8, 3, False)), ('ShiftRight', (8, 3, True)), ('ShiftLeft', (8, 3)), ('RotateRight', (8, 3)), ('SignedSub', (6,)),
-    ('SignedAdd', (8,)), ('BinaryToBCD', (6,)), ('CountLeadingZeros', (8,)), ('PriorityEncoder', (8,)),
+    ('SignedAdd', (8,)), ('BinaryToBCD', (6,)), ('CountLeadingZeros', (8,)),
     ('FPAdder_SP', ()), ('FPMult_SP', ()), ('FPComparator_SP', ()),
 ]
 
@@ -172,7 +171,7 @@ def _rand_block_class():
                     hi = rng.randrange(a.getWidth()); lo = rng.randint(0, hi); r = new(hi - lo + 1)
                     recipe.append((kind, lambda n=n, a=a, hi=hi, lo=lo, r=r: py4hw.Range(self, n, a, hi, lo, r)))
                 elif kind == 'concat':
-                    r = new(min(a.getWidth() + b.getWidth(), 16))
+                    r = new(a.getWidth() + b.getWidth())
                     recipe.append((kind, lambda n=n, a=a, b=b, r=r: py4hw.ConcatenateMSBF(self, n, [a, b], r)))
                 elif kind == 'shl':
                     r = new(a.getWidth()); sh = rng.randint(0, max_w)
@@ -241,7 +240,34 @@ def build_rand(seed, p):
     return obj
 
 
+def build_selfloop(variant):
+    """the smallest netlists with feedback through a register: a child whose output is wired straight to one of its
+    own inputs.  variant: which pin ('e' enable, 'r' reset, 'd' data) and how many buffers sit between the in-port and
+    the register (0 puts the register in grid column 1)."""
+    py4hw = quiet_import()
+    pin, depth = variant
+
+    class SelfLoop(py4hw.Logic):
+        def __init__(self, parent, name, d, q):
+            super().__init__(parent, name)
+            self.addIn('d', d); self.addOut('q', q)
+            last = d
+            for i in range(depth):
+                nxt = self.wire('b%d' % i, d.getWidth()); py4hw.Buf(self, 'buf%d' % i, last, nxt); last = nxt
+            if pin == 'e': py4hw.Reg(self, 'r', last, q, enable=q)
+            elif pin == 'r': py4hw.Reg(self, 'r', last, q, reset=q)
+            else: py4hw.Reg(self, 'r', q, q, enable=last)
+    with quiet():
+        hw = py4hw.HWSystem()
+        obj = SelfLoop(hw, 'dut', hw.wire('d'), hw.wire('q'))
+    return obj
+
+
+SELFLOOPS = [('e', 0), ('r', 0), ('d', 0), ('e', 1), ('e', 3), ('d', 2)]
+
+
 def build(recipe):
     if recipe[0] == 'lib': return build_lib(recipe[1], tuple(recipe[2]))
+    if recipe[0] == 'selfloop': return build_selfloop(tuple(recipe[1]))
     if recipe[0] == 'rand': return build_rand(recipe[1], recipe[2])
     raise ValueError(recipe)
